@@ -63,7 +63,8 @@ func ruleSetters(rule string) RuleFn {
 				}
 				n++
 				nm := an.ShortName(fn)
-				c.Check(allowed[nm], rule, m+" called in "+nm, "result extraction / staged commit", m+" is called from "+nm+": a value is written into a scope's store outside result extraction (e.g. a lookup caching a value of an ancestor in the requesting scope): later lookups find the copy before the providers of a nearer scope", in, nil)
+				okOwner := allowed[nm] || privateHelperOf(c, fn, allowed, 0)
+				c.Check(okOwner, rule, m+" called in "+nm, "result extraction / staged commit", m+" is called from "+nm+": a value is written into a scope's store outside result extraction (e.g. a lookup caching a value of an ancestor in the requesting scope): later lookups find the copy before the providers of a nearer scope", in, nil)
 			})
 		}
 		c.Floor(rule, "setter call sites", n, 7)
@@ -253,6 +254,8 @@ func ruleMapDeref(rule string) RuleFn {
 				}
 			})
 		}
-		c.Floor(rule, "dereferenced pointer-valued map lookups", n, 1)
+		if n == 0 {
+			c.OKAt(rule, "no pointer-valued map lookup is dereferenced without the comma-ok form", "0 sites", "-")
+		}
 	}
 }
